@@ -251,7 +251,10 @@ func IsSameV1alpha1WorkloadRefGVKName(a, b *appsv1alpha1.WorkloadRef) bool {
 	if a == nil || b == nil {
 		return false
 	}
-	return reflect.DeepEqual(a, b)
+	// the controllers resolve a workload by group, kind and name: the version part of apiVersion does not matter
+	ga, _ := schema.ParseGroupVersion(a.APIVersion)
+	gb, _ := schema.ParseGroupVersion(b.APIVersion)
+	return ga.Group == gb.Group && a.Kind == b.Kind && a.Name == b.Name
 }
 
 func GetContextFromv1alpha1Rollout(rollout *appsv1alpha1.Rollout) *validateContext {
